@@ -33,6 +33,46 @@ def jobs_for(tier, seed):
     return jobs
 
 
+def uint_set_replay(obs):
+    """Replay the solver's counterexample of a uint_set obligation (width index, python int value) on the real function."""
+    from vf.core import use_repo
+    use_repo()
+    import pyteal as pt
+    from pyteal.ast.abi.uint import uint_set
+    sizes = (8, 16, 32, 64)
+    cands = []
+    for o in obs:
+        m = (o.model or {}).get("model") if isinstance(o.model, dict) else None
+        if isinstance(m, dict) and "value" in m and "width_index" in m:
+            try:
+                cands.append((sizes[int(m["width_index"])], int(m["value"])))
+            except (ValueError, IndexError):
+                pass
+    cands += [(s, v) for s in sizes for v in (-1, 0, 2 ** s - 1, 2 ** s, 2 ** s + 1)]
+    for size, v in cands:
+        try:
+            e = uint_set(size, pt.ScratchVar(pt.TealType.uint64), v)
+            accepted = True
+        except pt.TealInputError:
+            accepted, e = False, None
+        want = 0 <= v < 2 ** size
+        if accepted != want:
+            return {"input": {"size": size, "value": v}, "problems": [f"uint_set(size={size}, value={v}) {'accepted' if accepted else 'rejected'}; the width holds [0, 2^{size})"]}
+        if accepted:
+            teal = pt.compileTeal(pt.Seq(e, pt.Approve()), pt.Mode.Application, version=6)
+            if f"int {v}" not in teal and f"pushint {v}" not in teal:
+                return {"input": {"size": size, "value": v}, "problems": [f"uint_set(size={size}, value={v}) does not store the constant {v}"], "teal": teal}
+    for size in sizes[:3]:
+        e = uint_set(size, pt.ScratchVar(pt.TealType.uint64), pt.Btoi(pt.Bytes("x")))
+        lines = [l.strip() for l in pt.compileTeal(pt.Seq(e, pt.Approve()), pt.Mode.Application, version=6).splitlines()]
+        tail = [l for l in lines if l and not l.startswith("#pragma")]
+        ok = any(tail[i:i + 3] == [f"int {2 ** size}", "<", "assert"] for i in range(len(tail)))
+        if not ok:
+            return {"input": {"size": size, "value": "Btoi(Bytes('x')) (a run-time value)"},
+                    "problems": [f"uint_set(size={size}, <expression>) is not followed by the run-time check `load; int {2 ** size}; <; assert`"], "teal": "\n".join(lines)}
+    return None
+
+
 def run(report: Report, tier, seed):
     report.trust("algosdk.abi (reference codec: type strings, is_dynamic, byte_len, encode)", "spec/avm.py",
                  "spec arc4 position function in contracts/c06_layout.py (independent, element-by-element walk)")
@@ -41,7 +81,9 @@ def run(report: Report, tier, seed):
     run_contracts(report, [("contracts.c06_layout", "BoolSequenceLength", "O6.13"),
                            ("contracts.c06_layout", "ConsecutiveThingNum", "O6.14"),
                            ("contracts.c06_layout", "BoolAwareStaticByteLength", "O6.15"),
-                           ("contracts.c06_encode", "EncodeTuple", "O6.16")])
+                           ("contracts.c06_encode", "EncodeTuple", "O6.16"),
+                           ("contracts.c06_uint", "UintSetInt", "O6.17"),
+                           ("contracts.c06_uint", "UintSetExpr", "O6.18")])
     jobs = jobs_for(tier, seed)
     res = A.pool_map(A.encode_case, jobs)
     bad = [r for r in res if r["problems"]]
@@ -78,8 +120,12 @@ def run(report: Report, tier, seed):
         report.violation(Violation(key=f"setform:{b['job'][0]}:{b['job'][1]}", what=b["problems"][0][:400], replay={"input": {"setform": b["job"]}, "teal": b.get("teal")}, confirmed_native=True))
     report.sample({"shape": jobs[40][0], "what": "assembled with set() from parts, Log(encode()) compared with algosdk"})
     report.extra["explanation"] = "P: layout arithmetic (pyvc); B: Expr layer against algosdk on generated shapes/values"
-    report.settle_undecided(lambda fn, obs: (bad[0] if bad else None) and {"input": {"shape": bad[0]["shape"], "seed": bad[0]["seed"], "version": bad[0]["version"], "in_sub": bad[0]["in_sub"]}, "problems": bad[0]["problems"][:2]})
-    report.settle_refuted(lambda fn, obs: (bad[0] if bad else None) and {"input": {"shape": bad[0]["shape"], "seed": bad[0]["seed"], "version": bad[0]["version"], "in_sub": bad[0]["in_sub"]}, "problems": bad[0]["problems"][:2]})
+    def search(fn, obs):
+        if fn.endswith("uint.uint_set"):
+            return uint_set_replay(obs) or ((rbad[0] if rbad else None) and {"input": {"uint_range": rbad[0].get("shape")}, "problems": rbad[0]["problems"][:2]})
+        return (bad[0] if bad else None) and {"input": {"shape": bad[0]["shape"], "seed": bad[0]["seed"], "version": bad[0]["version"], "in_sub": bad[0]["in_sub"]}, "problems": bad[0]["problems"][:2]}
+    report.settle_undecided(search)
+    report.settle_refuted(search)
     for b in cbad[:2]:
         if any(o.status == "refuted" for o in report.obs):
             break
